@@ -120,11 +120,12 @@ package j5convert
 
 // The summary of an enum used to compile in / not_in rules holds, for every option, the number the
 // compiled enum gives it (visitEnumNode: an explicit zero value first, then declaration order from 1),
-// under the key prefix + name. (Option names of a validated enum are distinct: ASSUMED.)
+// under the key prefix + name. (ASSUMED of the parsed, validated enum node: non-nil options with distinct
+// names, fewer than 2^31 of them.)
 //@ spec func enumNum(node *sourcewalk.EnumNode, i int) int = explicitZero(node) ? i : i + 1
 //@ func enumTypeRef
-//@   requires node != nil && node.Schema != nil && (forall i int {node.Schema.Options[i]} :: 0 <= i && i < len(node.Schema.Options) ==> node.Schema.Options[i] != nil)
-//@   requires len(node.Schema.Options) < 2147483647
+//@   free requires node != nil && node.Schema != nil && (forall i int {node.Schema.Options[i]} :: 0 <= i && i < len(node.Schema.Options) ==> node.Schema.Options[i] != nil)
+//@   free requires len(node.Schema.Options) < 2147483647
 //@   free requires forall i int, j int {node.Schema.Options[i], node.Schema.Options[j]} :: 0 <= i && i < j && j < len(node.Schema.Options) ==> node.Schema.Options[i].Name != node.Schema.Options[j].Name
 //@   ensures result != nil && result.EnumRef != nil && result.EnumRef.Prefix == node.Schema.Prefix
 //@   ensures numbers: forall i int {node.Schema.Options[i]} :: 0 <= i && i < len(node.Schema.Options) ==>
